@@ -190,7 +190,7 @@ def frame_component(P, t):
     if t[0] != 'field':
         return None
     if t[2] in ('0', '1') and (len(t) < 4 or not str(t[3]).startswith('des')):
-        return ('time' if t[2] == '1' else 'event', peel(t[1]))
+        return ('time' if t[2] == '1' else 'event', _some_payload(peel(t[1])))
     adt = P.adts.get(strip_generics(t[3])) if len(t) > 3 and t[3] else None
     if adt is None or len(adt.get('variants', [])) != 1:
         return None
@@ -198,4 +198,14 @@ def frame_component(P, t):
     times = [x for x in fs if x['ty'] == 'des::time::SimTime']
     if len(fs) != 2 or len(times) != 1:
         return None
-    return ('time' if t[2] == times[0]['n'] else 'event', peel(t[1]))
+    return ('time' if t[2] == times[0]['n'] else 'event', _some_payload(peel(t[1])))
+
+
+def _some_payload(fr):
+    """the frame behind `(x as Some).0`: fetch_next may hand the frame out as Option (None for an exhausted set, the emptiness test moved
+    into the callee)"""
+    if fr[0] == 'field' and fr[2] == '0':
+        y = peel(fr[1])
+        if y[0] == 'as' and y[2] == 'Some':
+            return peel(y[1])
+    return fr
